@@ -697,6 +697,53 @@ def check_bound(ck, prog):
           key="BOUND:lzma2_bound")
 
 
+def check_dict_declared(ck, prog):
+    """The dictionary size written into the headers is options->dict_size (lzma_lzma2_props_encode / the .lzma header).
+    The window the match finders search is lz_options->dict_size (mf->cyclic_size = dict_size + 1): for "no match
+    reaches farther back than the declared size" the encoder side must set the latter only by copying the former."""
+    ck.rule("C02-DICTDECL", "on the encoder side lz_options->dict_size is only ever a copy of options->dict_size "
+            "(the value the headers declare); the match-finder window is derived from it")
+    n = 0
+    files = ("lzma_encoder.c", "lzma2_encoder.c", "lz_encoder.c", "lzma_encoder_optimum_fast.c",
+             "lzma_encoder_optimum_normal.c", "lzma_encoder_presets.c")
+    for base in files:
+        for f in prog.fns_in(base):
+            for b, i, e in f.iter_elems():
+                for (l, r, op, node) in ex.writes(e):
+                    ls = ex.strip(l)
+                    if ls is None or ls.get("k") != "mem" or ls.get("rec") != "lzma_lz_options" or ls["f"] != "dict_size":
+                        continue
+                    n += 1
+                    rs = ex.strip(r) if r is not None else None
+                    ok = op == "=" and rs is not None and rs.get("k") == "mem" and rs["f"] == "dict_size" and \
+                        (rs.get("rec") or "").startswith("lzma_options_lzma")
+                    ck.ob("C02-DICTDECL", "%s:dict_size" % f.name, ok, common.where(f, e),
+                          "%s(): lz_options->dict_size = options->dict_size" % f.name if ok else
+                          "%s() sets lz_options->dict_size with `%s`: the match finders then search a window that differs from "
+                          "the dictionary size the headers declare (options->dict_size), so a match can reach farther back than "
+                          "the declared size and a decoder that allocates only the declared size rejects the stream" % (
+                              f.name, ex.show(node)[:80]), key="DICTDECL:%s" % f.name)
+    # the window of the match finders
+    f = prog.fn("lz_encoder_prepare", "lz_encoder.c")
+    ck.saw_function(f)
+    got = None
+    for b, i, e in f.iter_elems():
+        for (l, r, op, node) in ex.writes(e):
+            ls = ex.strip(l)
+            if ls is not None and ls.get("k") == "mem" and ls["f"] == "cyclic_size" and op == "=":
+                got = (ex.show(ex.strip(r)), e)
+    if got is None:
+        raise AnalysisBroken("lz_encoder_prepare: store to mf->cyclic_size not found")
+    n += 1
+    ok = got[0].replace(" ", "") in ("lz_options->dict_size+1", "1+lz_options->dict_size")
+    ck.ob("C02-DICTDECL", "lz_encoder_prepare:cyclic_size", ok, common.where(f, got[1]),
+          "mf->cyclic_size = %s" % got[0] if ok else
+          "lz_encoder_prepare(): mf->cyclic_size = %s instead of lz_options->dict_size + 1: the match finders' window no "
+          "longer equals the declared dictionary size" % got[0], key="DICTDECL:cyclic_size")
+    ck.floor("C02-DICTDECL", 2)
+    return n
+
+
 def run(ck):
     ck.explanation = (
         "Layout facts (constant-folded offsets, lengths, CRC ranges, flag bits, field order, byte order) are "
@@ -716,6 +763,7 @@ def run(ck):
     check_uncomp_fallback(ck, prog)
     check_dict_rounding(ck, prog)
     check_bound(ck, prog)
+    check_dict_declared(ck, prog)
     # the Check field of a Block is the CRC32/CRC64/SHA-256 of the data: the SHA-256 structure rules of C14
     from . import C14
     C14.check_sha(ck, prog)
